@@ -61,6 +61,15 @@ func hasKind(l PDULayout, k string) bool {
 	return false
 }
 
+func hasKindW(l PDULayout, k string, w int) bool {
+	for _, f := range l.Fields {
+		if f.Kind == k && f.W == w {
+			return true
+		}
+	}
+	return false
+}
+
 func csFields(l PDULayout) []Fld {
 	var r []Fld
 	for _, f := range l.Fields {
@@ -365,12 +374,14 @@ func genPDU(l PDULayout, sb *strings.Builder) {
 	w("	n := vParam(\"n\")")
 	w("	data := vBytes(\"in\", n)")
 	w("	p := new(%s)", T)
+	w("	vConcretizeAlloc()")
 	w("	vAllocLimit(16*n + 1024)")
 	w("	vBudget(400000 + 4000*n, true)")
 	for _, kf := range typeKFsC03(l) {
 		w("	vKnown(%q, %q, %s)", kf.ID, kf.Pattern, kf.Excuse)
 	}
 	w("	err := p.IDecode(data)")
+	w("	vAllocCheck()")
 	w("	vObserveErr(\"err\", err)")
 	w("	need := %d", minLen)
 	for _, f := range l.Fields {
@@ -399,6 +410,7 @@ func genPDU(l PDULayout, sb *strings.Builder) {
 	w("	n := vParam(\"n\")")
 	w("	data := vBytes(\"in\", n)")
 	w("	p := new(%s)", T)
+	w("	vConcretizeAlloc()")
 	w("	vBudget(400000 + 4000*n, false)")
 	for _, kf := range typeKFsC03(l) {
 		w("	vKnown(%q, %q, %s)", kf.ID, kf.Pattern, kf.Excuse)
@@ -452,6 +464,139 @@ func genPDU(l PDULayout, sb *strings.Builder) {
 	w("")
 }
 
+var dispatcherOf = map[string]string{"cmpp20": "DecodeCMPP20", "cmpp30": "DecodeCMPP30", "sgip12": "DecodeSGIP12", "smgp30": "DecodeSMGP30", "smpp34": "DecodeSMPP34"}
+
+func seqOffset(h string) int {
+	switch h {
+	case "sgip":
+		return 16
+	case "smpp":
+		return 12
+	}
+	return 8
+}
+
+func setCmd(l PDULayout, v string) string {
+	if l.Hdr == "smpp" {
+		return "vSetU(&p.Header.ID, uint64(" + v + "))"
+	}
+	return "vSetU(&p.Header.CommandID, uint64(" + v + "))"
+}
+
+// genC10 emits the request/response pairing and dispatch-consistency harnesses of one type.
+func genC10(l PDULayout, sb *strings.Builder) {
+	if l.Hdr == "none" {
+		return
+	}
+	T := l.Type
+	w := func(format string, a ...any) { fmt.Fprintf(sb, format+"\n", a...) }
+	lab := func(what string) string { return fmt.Sprintf("C10.%s.%s.%s", l.Pkg, T, what) }
+	w("func VH_C10_%s() {", T)
+	w("	cmd := uint32(vParam(\"cmd\"))")
+	w("	p := new(%s)", T)
+	w("	tooLong, _, _, _ := vBuild_%s(p, 0, 0, 0, 0, 1, -1)", T)
+	w("	vAssume(vNot(tooLong))")
+	w("	%s", setCmd(l, "cmd"))
+	w("	seq := vU32(\"newseq\")")
+	w("	p.SetSequenceID(seq)")
+	w("	vAssert(%q, p.GetSequenceID() == seq)", lab("set-then-get-sequence"))
+	w("	b, err := p.IEncode()")
+	w("	vObserve(\"bytes\", b)")
+	w("	vAssert(%q, err == nil)", lab("encode-succeeds"))
+	w("	if err != nil || len(b) < %d { vReach(\"end\"); return }", 4*hdrWords(l.Hdr))
+	w("	vAssert(%q, vBE32(b[%d:]) == seq)", lab("sequence-at-header-offset"), seqOffset(l.Hdr))
+	w("	resp := p.GenEmptyResponse()")
+	if l.Resp != "" {
+		w("	r, ok := resp.(*%s)", l.Resp)
+		w("	vAssert(%q, ok)", lab("response-type"))
+		w("	if ok {")
+		w("		vAssert(%q, r.GetSequenceID() == seq)", lab("response-carries-sequence"))
+		if l.Hdr == "sgip" {
+			w("		vAssert(%q, r.Header.Sequence == p.Header.Sequence)", lab("response-carries-all-sequence-words"))
+		}
+		w("		vAssert(%q, r.GetCommand().ToUint32() == cmd|0x80000000)", lab("response-command-is-request-with-response-bit"))
+		w("		rb, rerr := r.IEncode()")
+		w("		vAssert(%q, vAnd(rerr == nil, len(rb) >= 8))", lab("response-encodes"))
+		w("		if rerr == nil && len(rb) >= 8 { vAssert(%q, vBE32(rb[4:]) == r.GetCommand().ToUint32()) }", lab("response-reports-the-command-it-encodes"))
+		w("		vAssert(%q, r.GenEmptyResponse() == nil)", lab("response-generates-none"))
+		w("	}")
+	} else {
+		w("	vAssert(%q, resp == nil)", lab("response-generates-none"))
+	}
+	w("	vReach(\"end\")")
+	w("}")
+	w("")
+	// dispatcher maps the reference image back to this type
+	disp := dispatcherOf[l.Pkg]
+	w("func VH_C10_dispatch_%s() {", T)
+	w("	cmd := uint32(vParam(\"cmd\"))")
+	w("	p := new(%s)", T)
+	w("	tooLong, hexraw, tags, tvals := vBuild_%s(p, 0, 0, 0, 0, 1, -1)", T)
+	w("	vAssume(vNot(tooLong))")
+	w("	%s", setCmd(l, "cmd"))
+	w("	img, _ := vImage_%s(p, 0, 0, hexraw, tags, tvals)", T)
+	w("	pdu, err := %s(img)", disp)
+	w("	vObserveErr(\"err\", err)")
+	w("	vAssert(%q, vAnd(err == nil, pdu != nil))", lab("dispatch.decodes"))
+	w("	if err != nil || pdu == nil { vReach(\"end\"); return }")
+	w("	_, ok := pdu.(*%s)", T)
+	w("	vAssert(%q, ok)", lab("dispatch.type"))
+	w("	vAssert(%q, pdu.GetCommand().ToUint32() == cmd)", lab("dispatch.reports-the-command-it-was-decoded-from"))
+	if l.Pkg == "smgp30" && hasKindW(l, "fb", 10) {
+		w("	vKnown(\"KF-smgp-msgid-raw-on-encode-hex-on-decode\", %q, true)", lab("dispatch.re-encodes"))
+	}
+	w("	b2, err2 := pdu.IEncode()")
+	w("	vAssert(%q, vAnd(err2 == nil, len(b2) >= 8))", lab("dispatch.re-encodes"))
+	w("	if err2 == nil && len(b2) >= 8 { vAssert(%q, vBE32(b2[4:]) == pdu.GetCommand().ToUint32()) }", lab("dispatch.reports-the-command-it-encodes"))
+	w("	vReach(\"end\")")
+	w("}")
+	w("")
+}
+
+// genPkgHarness emits per-package harnesses (dispatcher on arbitrary bytes / unknown ids).
+func genPkgHarness(pkg string, ls []PDULayout, sb *strings.Builder) {
+	disp, ok := dispatcherOf[pkg]
+	if !ok {
+		return
+	}
+	w := func(format string, a ...any) { fmt.Fprintf(sb, format+"\n", a...) }
+	w("func VH_C03_dispatch() {")
+	w("	n := vParam(\"n\")")
+	w("	data := vBytes(\"in\", n)")
+	w("	vConcretizeAlloc()")
+	w("	vAllocLimit(16*n + 1024)")
+	w("	vBudget(400000 + 4000*n, true)")
+	w("	pdu, err := %s(data)", disp)
+	w("	vAllocCheck()")
+	w("	vObserveErr(\"err\", err)")
+	w("	vAssert(\"C03.%s.dispatch.value-or-error\", (pdu == nil) == (err != nil))", pkg)
+	w("	vReach(\"end\")")
+	w("}")
+	w("")
+	w("func VH_C10_dispatch_unknown() {")
+	w("	n := vParam(\"n\")")
+	w("	data := vBytes(\"in\", n)")
+	w("	cmd := vBE32(data[4:])")
+	seen := map[uint32]bool{}
+	for _, l := range ls {
+		if !seen[l.CmdVal] {
+			seen[l.CmdVal] = true
+			w("	vAssume(cmd != %#x)", l.CmdVal)
+		}
+	}
+	if pkg == "smpp34" {
+		for _, c := range []uint32{1, 2, 0x80000001, 0x80000002} {
+			w("	vAssume(cmd != %#x)", c)
+		}
+	}
+	w("	pdu, err := %s(data)", disp)
+	w("	vObserveErr(\"err\", err)")
+	w("	vAssert(\"C10.%s.dispatch.unknown-command-is-unsupported\", vAnd(pdu == nil, errors.Is(err, sms.ErrUnsupportedPacket)))", pkg)
+	w("	vReach(\"end\")")
+	w("}")
+	w("")
+}
+
 type typeKF struct {
 	ID, Pattern, Excuse string
 }
@@ -469,6 +614,8 @@ func typeKFsC03(l PDULayout) []typeKF {
 func typeKFsC11(l PDULayout) []typeKF {
 	return nil
 }
+
+func hasDispatcher(pkg string) bool { _, ok := dispatcherOf[pkg]; return ok }
 
 // GenerateHarnesses returns generated harness files keyed by package dir.
 func GenerateHarnesses() map[string]map[string][]byte {
@@ -493,8 +640,13 @@ func GenerateHarnesses() map[string]map[string][]byte {
 				imps[i] = true
 			}
 		}
-		if len(imps) > 0 {
+		_, hasDisp := dispatcherOf[ls[0].Pkg]
+		if len(imps) > 0 || hasDisp {
 			sb.WriteString("import (\n")
+			if hasDisp {
+				sb.WriteString("\t\"errors\"\n\n")
+				fmt.Fprintf(&sb, "\tsms %q\n", Module)
+			}
 			keys := make([]string, 0, len(imps))
 			for k := range imps {
 				keys = append(keys, k)
@@ -508,11 +660,19 @@ func GenerateHarnesses() map[string]map[string][]byte {
 		sb.WriteString("func init() {\n")
 		for _, l := range ls {
 			fmt.Fprintf(&sb, "\tvRegister(\"VH_PDU_%s\", VH_PDU_%s)\n\tvRegister(\"VH_C03_%s\", VH_C03_%s)\n\tvRegister(\"VH_C11_%s\", VH_C11_%s)\n", l.Type, l.Type, l.Type, l.Type, l.Type, l.Type)
+			if l.Hdr != "none" {
+				fmt.Fprintf(&sb, "\tvRegister(\"VH_C10_%s\", VH_C10_%s)\n\tvRegister(\"VH_C10_dispatch_%s\", VH_C10_dispatch_%s)\n", l.Type, l.Type, l.Type, l.Type)
+			}
+		}
+		if hasDispatcher(ls[0].Pkg) {
+			sb.WriteString("\tvRegister(\"VH_C03_dispatch\", VH_C03_dispatch)\n\tvRegister(\"VH_C10_dispatch_unknown\", VH_C10_dispatch_unknown)\n")
 		}
 		sb.WriteString("}\n\n")
 		for _, l := range ls {
 			genPDU(l, &sb)
+			genC10(l, &sb)
 		}
+		genPkgHarness(ls[0].Pkg, ls, &sb)
 		out[d] = map[string][]byte{"gen_pdu.go": []byte(sb.String())}
 	}
 	return out
